@@ -372,6 +372,20 @@ func (r *mwRun) vacuumStep(s MWStep, where string) error {
 	// Version creation is wall-clock time (now), so every cutoff in the generated
 	// 2020 range keeps every version; the year-2100 cutoff keeps none for sure.
 	if !far {
+		// the version the vacuuming connection is on afterwards was created after the cutoff:
+		// this vacuum must not have deleted its object (for an emptied table a skipped version
+		// and an empty one read the same, so the re-read below cannot tell)
+		if v, err := w.conn.Version(w.name); err == nil {
+			for _, n := range parseVersionList(v) {
+				for _, q := range r.store.LogSince(from) {
+					if q.Op == "DELETE" && q.Err == "" && q.Key == r.prefix+"root/current/"+n {
+						if _, mer := r.store.Get(r.prefix + "root/merged/" + n); !mer {
+							return fmt.Errorf("%s: the vacuum deleted the object of version %s, which was created after the cutoff and is the version the connection reports afterwards", where, n)
+						}
+					}
+				}
+			}
+		}
 		for _, sn := range r.snaps {
 			names := parseVersionList(sn.Version)
 			if len(names) == 0 {
